@@ -59,7 +59,7 @@ def classify(rep, wl, fault, prob, lines, hdr_len):
 
 
 def prepare(ctx, reps):
-    out = ctx.batch([(r.name, r.prep_script()) for r in reps], clean=True, op_timeout=5)
+    out = ctx.batch([(r.name, r.prep_script()) for r in reps], clean=True, op_timeout=5, retry_timeouts=False)
     for r in reps:
         d = [l for l in out.get(r.name, []) if l.startswith("len=")]
         if not d:
@@ -73,7 +73,7 @@ def fault_free(ctx, reps, after_open=False):
     for r in reps:
         for wl in ("r", "w", "rw"):
             jobs.append(("%s|%s" % (r.name, wl), r.script(wl, None, peek=True, after_open=after_open, dump_full=after_open)))
-    out = ctx.batch(jobs, clean=True, op_timeout=5)
+    out = ctx.batch(jobs, clean=True, op_timeout=5, retry_timeouts=False)
     FF = {}
     for r in reps:
         for wl in ("r", "w", "rw"):
@@ -124,7 +124,7 @@ def run(ctx):
             continue
         text = open(os.path.join(VERIF, w)).read()
         script = text.split("--- script", 1)[1].lstrip("\n")
-        res = ctx.batch([("kf", script)], clean=True, op_timeout=3)["kf"]
+        res = ctx.batch([("kf", script)], clean=True, op_timeout=3, retry_timeouts=False)["kf"]
         exp = [l[len("expect-contains "):].strip() for l in text.split("\n") if l.startswith("expect-contains ")]
         fails = bool(exp) and all(any(e in l for l in res) for e in exp)
         still[kid] = fails
@@ -161,7 +161,7 @@ def run(ctx):
             name = "%s|w|%s" % (nm, "ff" if pt is None else "%d|%d|%d" % (pt[0], pt[1], int(pt[2])))
             jobs.append((name, sc))
             meta[name] = (None, "w", pt, sc)
-    impl = ctx.batch(jobs, clean=True, op_timeout=5)
+    impl = ctx.batch(jobs, clean=True, op_timeout=5, retry_timeouts=False)
     if jobs:
         j0 = jobs[len(jobs) // 3]
         ctx.notes["l1_example"] = {"name (format|workload|fault point|kind|single-shot)": j0[0], "script": j0[1][:1200], "implementation_transcript": impl.get(j0[0], [])[:14]}
@@ -218,7 +218,7 @@ def run(ctx):
                 jobs.append((nm, sc))
                 meta[nm] = (r, wl, pt, sc)
     t0 = time.time()
-    out = ctx.batch(jobs, clean=True, op_timeout=5 if quick else 10)
+    out = ctx.batch(jobs, clean=True, op_timeout=5 if quick else 10, retry_timeouts=False)
     ctx.notes["enumeration_wall_s"] = round(time.time() - t0, 1)
     if jobs:
         j0 = jobs[len(jobs) // 2]
@@ -297,7 +297,7 @@ def replay(ctx, path):
     head, script = text.split("--- script", 1)
     script = script.lstrip("\n")
     cat = next((l.split()[1] for l in head.split("\n") if l.startswith("c15-category ")), None)
-    lines = ctx.batch([("replay", script)], clean=True, op_timeout=5)["replay"]
+    lines = ctx.batch([("replay", script)], clean=True, op_timeout=5, retry_timeouts=False)["replay"]
     print("\n".join(l[:200] for l in lines))
     if cat is None:
         return ctx.replay_script(path)
@@ -329,7 +329,7 @@ def replay(ctx, path):
             ff = None
             if cat == "data":
                 sc0 = re.sub(r"^fault .*$", "fault at=0 kind=0", script, count=1, flags=re.M)
-                l0 = ctx.batch([("ff", sc0)], clean=True, op_timeout=5)["ff"]
+                l0 = ctx.batch([("ff", sc0)], clean=True, op_timeout=5, retry_timeouts=False)["ff"]
                 _, i0 = L.judge(r, m.group(4), sc0, l0, None)
                 ff = {"reads": i0.get("reads", []), "kopen": i0.get("kopen", 1 << 30)}
                 r.blockwidth = 1
